@@ -49,6 +49,11 @@ def cell_event(d_lsb, o, cache):
             return e
         e["fl"] = [int(a.flips[0]), int(a.flips[1])]
         e["c"] = [floorform(ij[0]), floorform(ij[1])]
+        if max(abs(e["c"][0][0]), abs(e["c"][1][0]), abs(e["off"][0]), abs(e["off"][1])) > 2 ** 29 + 4:
+            e["exc"] = "lattice position outside the segment triangle by more than the triangle's size: %r" % (ij,)
+            e["c"] = [[0, 0], [0, 0]]
+            e["off"] = [0, 0]
+            return e
         e["back"] = lsb_digits(hil.ij_to_s(ij, h, o), h)
         # the same lattice point handed over as a list, twice (a conversion must not consume its argument)
         lst = [ij[0], ij[1]]
